@@ -59,6 +59,10 @@ pub struct JobResult {
     pub wall_ms: u64,
     /// executions in which a collector step fell between two events of one trace
     pub nontrivial: u64,
+    /// the process-global collector has accumulated state leaked by earlier executions (allowed
+    /// losses at thread exit, or findings): the worker process should be replaced
+    #[serde(default)]
+    pub recycle: bool,
 }
 
 pub fn judge_execution(program: &Program, ex: &Execution, rules: &[Rule]) -> (Vec<Finding>, Vec<String>) {
@@ -274,6 +278,10 @@ pub fn run_job(job: &Job) -> JobResult {
     }
     res.state_hashes = states.into_iter().take(200_000).collect();
     res.wall_ms = t0.elapsed().as_millis() as u64;
+    if !job.no_reporter {
+        let st = stats();
+        res.recycle = st.buffered > 100_000 || st.active > 5_000 || st.danglings > 100_000;
+    }
     res
 }
 
@@ -395,7 +403,7 @@ pub fn worker_main() {
         }
         let job: Job = serde_json::from_str(&line).expect("job json");
         let res = run_job(&job);
-        let abort = res.aborted.is_some();
+        let abort = res.aborted.is_some() || res.recycle;
         let mut out = stdout.lock();
         serde_json::to_writer(&mut out, &res).unwrap();
         out.write_all(b"\n").unwrap();
@@ -632,7 +640,7 @@ pub fn run_check(spec: CheckSpec) -> i32 {
                         }
                     }
                     Ok(res) => {
-                        if res.aborted.is_some() {
+                        if res.aborted.is_some() || res.recycle {
                             if let Some(w) = worker.take() {
                                 w.kill();
                             }
